@@ -369,14 +369,50 @@ class Executor:
             return
         if op == "Range":
             x = self.operand(fr, st, A[0])
-            env[ins["name"]] = OpaqueV("range", x)
+            env[ins["name"]] = OpaqueV("range", {"over": x, "id": fresh_name("range")})
             return
         if op == "Next":
-            raise Unsupported("map range without invariant in " + fr.fn["short"])
+            r = self.operand(fr, st, A[0])
+            over = r.data["over"] if isinstance(r, OpaqueV) and isinstance(r.data, dict) else None
+            vkey = ("visited", r.data["id"]) if over is not None else None
+            if not isinstance(over, MapV) or vkey not in st.ghost:
+                raise Unsupported("map range without invariant in " + fr.fn["short"])
+            self.on_map_access(fr, st, over, ins, False)
+            ufname, added = st.ghost[vkey]
+            mt = ir.types[ir.under(over.t)]
+            k = st.from_uf(mt["key"], fresh_name("rk"), [])
+            ok = z3.Const(fresh_name("rangeok"), z3.BoolSort())
+            present, val = st.map_lookup(over, k)
+            st.assume(z3.Implies(ok, z3.And(to_bool(present), z3.Not(self.visited_pred(st, vkey, k)))))
+            # exhaustion (Go spec): when the iteration ends every key still present has been produced
+            q = st.from_uf(mt["key"], fresh_name("rq"), [])
+            qs = leaves(q)
+            n0 = len(st.pc)
+            pq, _ = st.map_lookup(over, q)
+            vq = self.visited_pred(st, vkey, q)
+            facts = st.pc[n0:]
+            del st.pc[n0:]
+            body = z3.Implies(to_bool(pq), vq)
+            st.assume(z3.Implies(z3.Not(ok), z3.ForAll(qs, z3.Implies(z3.And(*facts), body) if facts else body)))
+            st.ghost[vkey] = (ufname, added + [k])
+            st.ghost["last_visited"] = vkey
+            env[ins["name"]] = TupleV([ok, k, val])
+            return
         if op == "Send":
             self.do_send(fr, st, ins)
             return
         raise Unsupported("instruction %s in %s" % (op, fr.fn["short"]))
+
+    def visited_pred(self, st, vkey, k):
+        """membership of key k in the ghost set of keys produced so far by a map range"""
+        ufname, added = st.ghost[vkey]
+        kl = leaves(k)
+        parts = []
+        if ufname is not None:
+            parts.append(uf(ufname, [x.sort() for x in kl], z3.BoolSort())(*kl))
+        for a in added:
+            parts.append(to_bool(st.eq(k, a)))
+        return z3.Or(*parts) if parts else z3.BoolVal(False)
 
     # hooks (overridden by the verifier)
     def check_nonnil(self, fr, st, p, ins, what):
@@ -425,6 +461,12 @@ class Executor:
             g = uf("unbox:" + t, [Ref], Ref)
             ref = f(x.ref)
             st.assume(g(ref) == x.ref)
+        elif isinstance(x, StructV):
+            try:
+                ls = leaves(x)
+                ref = uf("box:" + t, [l.sort() for l in ls], Ref)(*ls) if ls else z3.Const("box0:" + t, Ref)
+            except TypeError:
+                ref = z3.Const(fresh_name("box"), Ref)
         else:
             ref = z3.Const(fresh_name("box"), Ref)
         st.assume(ref != NIL)
